@@ -304,8 +304,13 @@ func alphabet(tier string) []op {
 }
 
 type node struct {
-	s    state
-	hist []op
+	s     state
+	hist  []op
+	class string // class (shape) of the last operation of hist
+	// alts: other histories reaching s whose LAST operation is of another class (created by a list / updated by a
+	// list / created by an event / ...): state the reference model cannot tell apart may still differ inside the
+	// implementation (a stored version, a memo), so the state is also rebuilt along these
+	alts [][]op
 }
 
 // reachable does BFS over the reference model from every initial filter.
@@ -319,6 +324,11 @@ func reachable(alpha []op) []node {
 		n := node{s: s}
 		queue = append(queue, n)
 	}
+	type altKey struct {
+		s     state
+		class string
+	}
+	alts := map[altKey][]op{}
 	for len(queue) > 0 {
 		n := queue[0]
 		queue = queue[1:]
@@ -328,12 +338,70 @@ func reachable(alpha []op) []node {
 				if !seen[t] {
 					seen[t] = true
 					h := append(append([]op{}, n.hist...), p)
-					queue = append(queue, node{s: t, hist: h})
+					queue = append(queue, node{s: t, hist: h, class: altClass(n.s, p)})
+				}
+				if t != n.s && len(p.list) <= 1 {
+					k := altKey{t, altClass(n.s, p)}
+					if _, ok := alts[k]; !ok {
+						alts[k] = append(append([]op{}, n.hist...), p)
+					}
 				}
 			}
 		}
 	}
+	for i := range out {
+		var ks []string
+		for k := range alts {
+			if k.s == out[i].s {
+				ks = append(ks, k.class)
+			}
+		}
+		sort.Strings(ks)
+		for _, c := range ks {
+			if c == out[i].class {
+				continue // same class as the main history
+			}
+			if len(out[i].alts) < 10 {
+				out[i].alts = append(out[i].alts, alts[altKey{out[i].s, c}])
+			}
+		}
+	}
 	return out
+}
+
+// altClass: how the last operation of a history produced the state: operation kind, and for the object it carries
+// whether the key was absent or cached at an older / the same / a newer version before.
+func altClass(pre state, p op) string {
+	rel := func(o obj) string {
+		c, ok := pre.get(o.key)
+		switch {
+		case !ok:
+			return "absent"
+		case !o.numeric():
+			return "malformed"
+		case vnum[o.ver] > vnum[c.ver]:
+			return "cached-older"
+		case vnum[o.ver] == vnum[c.ver]:
+			return "cached-same"
+		}
+		return "cached-newer"
+	}
+	switch p.kind {
+	case "update":
+		return "update/" + p.ev + "/" + rel(p.o)
+	default:
+		c := p.kind
+		if p.kind == "refilter" && p.f != int(pre.f) {
+			c += "/other-filter"
+		}
+		for _, o := range p.list {
+			c += "/" + rel(o)
+		}
+		if len(p.list) == 0 {
+			c += "/empty"
+		}
+		return c
+	}
 }
 
 // ---- implementation side ------------------------------------------------------
@@ -561,6 +629,31 @@ func content(l []metav1.Object) string {
 }
 
 func (in *inst) run() {
+	in.explore(in.alpha)
+	if !in.finished {
+		return
+	}
+	// the same state rebuilt along histories whose last operation is of another class, with the single-entry part of
+	// the alphabet: differences the reference state cannot express (a stored version, a memo) show up here
+	main := in.n.hist
+	var small []op
+	for _, p := range in.alpha {
+		if len(p.list) <= 1 {
+			small = append(small, p)
+		}
+	}
+	for _, h := range in.n.alts {
+		in.n.hist = h
+		in.finished = false
+		in.explore(small)
+		if !in.finished {
+			break
+		}
+	}
+	in.n.hist = main
+}
+
+func (in *inst) explore(alpha []op) {
 	lv := in.build()
 	// sanity: the rebuilt instance is in the model state
 	l0, _ := lv.c.List()
@@ -573,7 +666,7 @@ func (in *inst) run() {
 	}
 	cur := in.n.s
 	var applied []string // operations applied to this live instance since it was built
-	for _, p := range in.alpha {
+	for _, p := range alpha {
 		in.curOp = p.String()
 		in.nilCrash = ""
 		pre := cur
@@ -581,6 +674,9 @@ func (in *inst) run() {
 		in.checked++
 		where := func() string {
 			s := fmt.Sprintf("state %v, op %v", pre, p)
+			if len(in.n.hist) > 0 {
+				s += fmt.Sprintf(" (state built by %v)", in.n.hist)
+			}
 			if len(applied) > 0 {
 				s += fmt.Sprintf(" (same instance already absorbed no-ops %v)", applied)
 			}
